@@ -284,13 +284,15 @@ func (p *Process) getBackoff() time.Duration {
 }
 
 func (p *Process) getProcessEnvironment() []string {
-	env := []string{
-		"PC_PROC_NAME=" + p.procConf.Name,
-		EnvReplicaNum + "=" + strconv.Itoa(p.procConf.ReplicaNum),
-	}
-	env = append(env, os.Environ()...)
+	// later entries win in os/exec: the injected variables go last so that every replica
+	// receives its own PC_PROC_NAME / PC_REPLICA_NUM whatever the other layers define
+	env := os.Environ()
 	env = append(env, p.globalEnv...)
 	env = append(env, p.procConf.Environment...)
+	env = append(env,
+		"PC_PROC_NAME="+p.procConf.Name,
+		EnvReplicaNum+"="+strconv.Itoa(p.procConf.ReplicaNum),
+	)
 	return env
 }
 
